@@ -60,7 +60,7 @@ def finish_text(tokens, idx, slashes, chiral, g):
             txt = t[1]
             if n in chiral:
                 d = g.nodes[n]
-                b = txt if txt.startswith('[') else M.atom_text(d, d['hcount'], bracket=True)
+                b = txt if txt.startswith('[') else M.atom_text(d, d['hcount'] if (n * 7 + len(txt)) % 2 else 0, bracket=True)
                 txt = b[:-1] + ';x=' + chiral[n] + ']'
             out.append(('atom', txt, n))
         else:
